@@ -108,6 +108,10 @@ def step (st : St) (line : String) : St × String :=
       | some [a, b, c, d, e, f, g, h, i, x, y, z] =>
           (st, fmtF (dist2tri (v3 a b c) (v3 d e f) (v3 g h i) (v3 x y z)))
       | _ => (st, "bad-op")
+  | "d3fixed" :: ws => match parseFs? ws with
+      | some [a, b, c, d, e, f, g, h, i, x, y, z] =>
+          (st, fmtF (dist2triFixed (v3 a b c) (v3 d e f) (v3 g h i) (v3 x y z)))
+      | _ => (st, "bad-op")
   | "bsphere" :: ws => match parseFs? ws with
       | some fs =>
           if fs.length % 3 == 0 && fs.length ≥ 3 then
